@@ -239,6 +239,17 @@ def _final_check(c, neg, timeout_ms, quick_only=False):
         if r == z3.unsat:
             return "unsat", None, tag
         return None
+    if c.uf_terms and not quick_only and not _has_uf(neg):
+        # the path condition carries uninterpreted-function axioms (sqrt, exp, ...) that the obligation does not mention:
+        # a short attempt without any hypotheses usually settles pure identities at once (sound for a proof)
+        s0 = z3.Solver()
+        s0.add(neg)
+        t0 = time.time()
+        r0 = core.timed_check(s0, 3000)
+        c.solver_s += time.time() - t0
+        c.queries += 1
+        if r0 == z3.unsat:
+            return "unsat", None, "z3-fresh-no-hypotheses"
     res = fresh(z3.Solver(), "z3-fresh", max(timeout_ms // 3, 2000) if not quick_only else timeout_ms)
     if res:
         return res
